@@ -13,9 +13,11 @@
    - and for programs that also Subscribe on short topics and receive broker messages on them: every
      broker message reaches exactly one handler invocation of the right subscription
      (C26_subscriptions_and_delivery);
+   - and for programs with Register, Publish at QoS 0-2 on registered names, Unsubscribe
+     (C26_programs_with_register_qos2_unsubscribe);
    - NOT proved (checked on the real client + real gateway by the monitor clauses (26,1)-(26,4) of
-     Checkers/ChkE2E.v on generated programs): Register, Unsubscribe, wildcard subscriptions, Publish
-     QoS 2 / registered / predefined topics, sleep cycles, time passing between calls;
+     Checkers/ChkE2E.v on generated programs): wildcard subscriptions and the REGISTER step of broker
+     messages, predefined topics, QoS 2 broker messages, sleep cycles, time passing between calls;
    - REFUTED: "every broker message matching a subscription, including bursts on not-yet-registered
      topics under a wildcard, reaches the handler": of two messages in flight on one unregistered
      topic only the first is delivered (the gateway allocates a second topic ID for the same name,
@@ -25,7 +27,7 @@ From Verif.Base Require Import Bytes.
 From Verif.Codec Require Import Packets Decode Encode.
 From Verif.Gateway Require Import GwTypes GwStep GwWf.
 From Verif.Client Require Import ClTypes ClStep.
-From Verif.System Require Import Compose ComposeProofs ComposeProofs2_aux ComposeProofs2.
+From Verif.System Require Import Compose ComposeProofs ComposeProofs2_aux ComposeProofs2 ComposeProofs3_aux ComposeProofs3.
 From Verif.Checkers Require Import ChkE2E.
 Open Scope N_scope.
 
@@ -69,6 +71,23 @@ Theorem C26_subscriptions_and_final_disconnect :
       cl_st (y_cl y') = Disconnected /\ b_closed (y_br y') = true /\ b_subs (y_br y') = bsubs_of (subs_final [] evs).
 Proof. exact C26_partial_subscriptions_disconnect. Qed.
 Print Assumptions C26_subscriptions_and_final_disconnect.
+
+(* The widest class proved: programs  Connect; e1; ...; en  whose events are Ping, Register (new names),
+   Publish at QoS 0, 1 and 2 (on a short name nobody subscribed, or on a registered name), Subscribe
+   (QoS 0-2, new short names), Unsubscribe (short names) and broker messages QoS 0/1 on subscribed names
+   (prog_okb3, an executable condition on the program; cfg_ok3 = cfg_ok and no predefined topics for this
+   client).  Event by event (run_post3): every call returns nil exactly once, invokes no handler and has
+   exactly its documented effect at the broker (nothing for Register; PUBLISH and PUBREL for a QoS 2
+   Publish; ...); every broker message is delivered to exactly one handler invocation of the right
+   subscription; at the end the subscriptions at the broker and in the client, and the registrations in
+   the client and in the gateway, are exactly those of the program (QuietP). *)
+Theorem C26_programs_with_register_qos2_unsubscribe :
+  forall cfg id0 (evs : list sys_event), cfg_ok3 cfg -> prog_okb3 [] [] evs = true ->
+    exists os0 oss y', sys_run cfg (sys_init cfg) (SCall id0 AConnect :: evs) = (os0 :: oss, y') /\
+      call_ok cfg id0 AConnect os0 /\ run_post3 cfg [] evs oss /\
+      QuietP cfg y' (subs_final3 [] evs) (regs_final3 [] evs).
+Proof. exact C26_partial_programs3. Qed.
+Print Assumptions C26_programs_with_register_qos2_unsubscribe.
 
 (* the refutation, as a history of the end-to-end monitor: lossless link, the subscription in place,
    two broker messages back to back on one new topic -> clause (26,4); one after the other -> none *)
